@@ -32,7 +32,11 @@ class LeafNode(TreeNode):
         """
         self.object = obj
         # self.__hash__ gets called so often we cache the result:
-        self.__hash = hash(obj)
+        if obj != obj:
+            # NaN: since Python 3.10 its hash depends on the identity of the float object, but all NaNs are equal nodes
+            self.__hash = hash("NaN")
+        else:
+            self.__hash = hash(obj)
 
     def copy_from(self: C, children: Iterable["TreeNode"]) -> C:
         return self.__class__(self.object)
@@ -112,6 +116,9 @@ class LeafNode(TreeNode):
 
     def __eq__(self, other):
         if isinstance(other, LeafNode):
+            if self.object != self.object and other.object != other.object:
+                # both are NaN, which is not equal to itself in Python but is the same data
+                return True
             # In Python, True == 1 and False == 0, but a boolean and a number are different data
             return self.object == other.object and isinstance(self.object, bool) == isinstance(other.object, bool)
         else:
